@@ -16,10 +16,10 @@ CONTRACTS = {
     "Xor.__init__": {"props": ["C14", "C16"], "why": "the at-least-one half of the Xor becomes a defaulted Any"},
     "Xor.to_json": {"props": ["C16"], "why": "children taken from the at-most-one half; default list written"},
     "Xor.from_json": {"props": ["C16"], "why": "default list read back into default="},
-    "StingyConfigurator.__init__": {"props": ["C14", "C18"], "why": "a configurator is All(*rules) with the given id"},
+    "StingyConfigurator.__init__": {"props": ["C14", "C16", "C18"], "why": "a configurator is All(*rules) with the given id"},
     "StingyConfigurator.ge_polyhedron": {"props": ["C09", "C14", "C15"],
                                          "why": "asserted polyhedron (active=True), default prio vector over its A-columns, same variables/index; not memoised"},
-    "StingyConfigurator.default_prios": {"props": ["C14"], "why": "id -> prio tag, -1 where untagged"},
+    "StingyConfigurator.default_prios": {"props": ["C14", "C15"], "why": "id -> prio tag, -1 where untagged"},
     "StingyConfigurator.leafs": {"props": ["C09", "C15"], "why": "exact-type puan.variable members of flatten(); not memoised"},
     "StingyConfigurator.select": {"props": ["C15"], "why": "delegates to the polyhedron; only_leafs keeps ids of leafs()"},
     "StingyConfigurator.add": {"props": ["C18"],
